@@ -1,6 +1,6 @@
 """What MANIFEST.json says about each claimed property (level text and trusted-base note)."""
 
-HOOK_COMMITS = ["3294ba2"]
+HOOK_COMMITS = ["3294ba2", "bc53046"]
 
 NOT_APPLICABLE = {}
 
@@ -13,6 +13,11 @@ _CALLS = (" Static tie for the wake-up side: every atomic operation, inner-mutex
           "function by function in source order, is extracted from /repo's sources on every run and compared with the "
           "sequence the model was written against (theorem %s_calls_ok); an added, removed, moved or re-targeted "
           "notify fails it.")
+
+_ATLOG = (" The atomic-operation log is part of the comparison: under hook H3 the crate's atomics record every operation "
+          "on the state words (kind, operands, Orderings, value returned); the model lists, for every branch of every "
+          "step, the atomic operations it stands for (lean/ALock/AtomTrace*.lean) and the two sequences are compared after "
+          "every operation (field at).")
 
 _SEARCH = (" Beyond the theorems (search aid, not part of the proof level): small concurrent scenarios of this property "
            "are run against the real crate under loom 0.7 (all interleavings up to a preemption bound, C11 memory model; "
@@ -34,19 +39,19 @@ CLAIMS = {
         "technique": "Lean 4 theorems (reachability in a capability graph; decide over the complete finite table) about a table regenerated from rustc's verdicts on /repo on every run",
     },
     "C01": {
-        "text": "Exclusion (at most one guard; the state word equals guards + 2*starved operations; a guard is only handed out when none is alive) is a Lean theorem over every finite history of the poll-granular Mutex model: every mix of lock/lock_arc/try_lock/try_lock_arc, cancellation at any point, the 0.5 ms branch taken or not at every evaluation point. " + _TIE + " Compared fields: outcome and state word." + _ATOM + " Theorems: C01_interleaved (exclusion and the word invariant under every interleaving, whatever the orderings) and C01_hb (release/acquire views: whoever holds the mutex has every earlier critical section in its view, i.e. release happens-before the next acquire, given the orderings of the table)." + _SEARCH,
+        "text": "Exclusion (at most one guard; the state word equals guards + 2*starved operations; a guard is only handed out when none is alive) is a Lean theorem over every finite history of the poll-granular Mutex model: every mix of lock/lock_arc/try_lock/try_lock_arc, cancellation at any point, the 0.5 ms branch taken or not at every evaluation point. " + _TIE + " Compared fields: outcome and state word." + _ATOM + " Theorems: C01_interleaved (exclusion and the word invariant under every interleaving, whatever the orderings) and C01_hb (release/acquire views: whoever holds the mutex has every earlier critical section in its view, i.e. release happens-before the next acquire, given the orderings of the table)." + _ATLOG + _SEARCH,
         "note": "PARTIAL: the interleaving model covers the word protocol (not the control flow between sites, which the poll-granular differential run exercises); memory model = release/acquire with RMW release sequences. event-listener is modelled, not verified.",
     },
     "C02": {
-        "text": "Exclusion (at most one write guard and then no other guard; at most one upgradable guard) is a Lean theorem over every finite history of the poll-granular RwLock model over the full alphabet (start/poll/cancel of read, upgradable_read, write and upgrade futures, borrowed and Arc; try_*; upgrade; try_upgrade; the three downgrades; guard drops). The invariant WordInv determines both words exactly: mutex.state = (W+U+PW+PU) + 2*starved, state = (W+PW+PU) + 2*(R+U), W+U+PW+PU <= 1, a write guard is alone. " + _TIE + " Compared fields: outcome and both state words." + _ATOM + " Theorems: C02_interleaved (at most one writer, a writer excludes every shared access - including a write guard in the middle of downgrade_write -, at most one upgradable guard, under every interleaving incl. the states inside an operation), C02_interleaved_word, C02_hb (release/acquire views over the same agents: every write section happens-before every later access, every read section before every later write guard; the ten synchronising orderings come from the table, C02_ord_ok)." + _SEARCH,
+        "text": "Exclusion (at most one write guard and then no other guard; at most one upgradable guard) is a Lean theorem over every finite history of the poll-granular RwLock model over the full alphabet (start/poll/cancel of read, upgradable_read, write and upgrade futures, borrowed and Arc; try_*; upgrade; try_upgrade; the three downgrades; guard drops). The invariant WordInv determines both words exactly: mutex.state = (W+U+PW+PU) + 2*starved, state = (W+PW+PU) + 2*(R+U), W+U+PW+PU <= 1, a write guard is alone. " + _TIE + " Compared fields: outcome and both state words." + _ATOM + " Theorems: C02_interleaved (at most one writer, a writer excludes every shared access - including a write guard in the middle of downgrade_write -, at most one upgradable guard, under every interleaving incl. the states inside an operation), C02_interleaved_word, C02_hb (release/acquire views over the same agents: every write section happens-before every later access, every read section before every later write guard; the ten synchronising orderings come from the table, C02_ord_ok)." + _ATLOG + _SEARCH,
         "note": "PARTIAL: the interleaving models cover the word protocol (not the control flow between sites); happens-before (C02_hb) in the release/acquire fragment. Reader-count overflow aborts are outside the models.",
     },
     "C11": {
-        "text": "The slot invariant (at most one of write guard / upgradable guard / writer waiting for readers / pending upgrade, at every state of every history), the fact that try_upgrade, upgrade() and downgrade_to_upgradable never touch the inner mutex, and 'a pending upgrade excludes writers and upgradable readers' are Lean theorems on the poll-granular RwLock model. " + _TIE + " Compared fields: outcome and both state words; monitors C11 (slot word) and C02." + _ATOM + " Theorems: C11_interleaved_slot (the inner mutex never has two holders, under every interleaving), C11_interleaved_downgrade (between the two atomic steps of downgrade_write, and while an upgradable guard or a pending upgrade exists, there is no writer and the inner mutex is not available)." + _SEARCH,
+        "text": "The slot invariant (at most one of write guard / upgradable guard / writer waiting for readers / pending upgrade, at every state of every history), the fact that try_upgrade, upgrade() and downgrade_to_upgradable never touch the inner mutex, and 'a pending upgrade excludes writers and upgradable readers' are Lean theorems on the poll-granular RwLock model. " + _TIE + " Compared fields: outcome and both state words; monitors C11 (slot word) and C02." + _ATOM + " Theorems: C11_interleaved_slot (the inner mutex never has two holders, under every interleaving), C11_interleaved_downgrade (between the two atomic steps of downgrade_write, and while an upgradable guard or a pending upgrade exists, there is no writer and the inner mutex is not available)." + _ATLOG + _SEARCH,
         "note": "PARTIAL: atomic calls; the value clause is derived from exclusive access (C02) rather than from a payload model.",
     },
     "C06": {
-        "text": "All four clauses (nothing pending with no guard alive; no read() pending without writer; no upgradable_read() pending with a free slot; no writer/upgrade pending once no reader is left) are Lean theorems over every finite history of the poll-granular RwLock model (full alphabet, borrowed and Arc, cancellation at every point, completed futures kept alive). They rest on three inductive invariants proved for every reachable state: WordInv (who holds what), RegInv (which future is registered on which of the three events; no stale listeners) and WakeInv (a notified listener's owner has an outstanding wake-up; the inner mutex, no_writer and no_readers each hold a notification whenever a registered waiter could proceed). " + _TIE + " Compared fields: outcome, wakers called, both words, listener counts and notified flags of all three events." + (_CALLS % "C06") + _SEARCH,
+        "text": "All four clauses (nothing pending with no guard alive; no read() pending without writer; no upgradable_read() pending with a free slot; no writer/upgrade pending once no reader is left) are Lean theorems over every finite history of the poll-granular RwLock model (full alphabet, borrowed and Arc, cancellation at every point, completed futures kept alive). They rest on three inductive invariants proved for every reachable state: WordInv (who holds what), RegInv (which future is registered on which of the three events; no stale listeners) and WakeInv (a notified listener's owner has an outstanding wake-up; the inner mutex, no_writer and no_readers each hold a notification whenever a registered waiter could proceed). " + _TIE + " Compared fields: outcome, wakers called, both words, listener counts and notified flags of all three events." + (_CALLS % "C06") + _ATLOG + _SEARCH,
         "note": "PARTIAL: polls are atomic in the model; thread interleavings are not covered by the theorems. event-listener is modelled, not verified. Reading: a never-polled live upgrade future counts as a holder.",
     },
     "C09": {
@@ -54,23 +59,23 @@ CLAIMS = {
         "note": "PARTIAL: atomic polls (the embedded mutex's slow path and thread interleavings are not exercised by this model); wait_blocking not modelled.",
     },
     "C10": {
-        "text": "The state words of Mutex, Semaphore and RwLock are proved to account exactly for the operations that are alive, and every registered listener to belong to a live operation, at every state of every history in which futures are dropped at any moment (never polled, pending, notified, completed). Drain theorems: once no future and no guard is alive the words are zero / every issued permit is back, all event queues are empty, and try_lock / try_write / try_acquire (all permits) succeed. " + _TIE + _SEARCH,
+        "text": "The state words of Mutex, Semaphore and RwLock are proved to account exactly for the operations that are alive, and every registered listener to belong to a live operation, at every state of every history in which futures are dropped at any moment (never polled, pending, notified, completed). Drain theorems: once no future and no guard is alive the words are zero / every issued permit is back, all event queues are empty, and try_lock / try_write / try_acquire (all permits) succeed. " + _TIE + _ATLOG + _SEARCH,
         "note": "PARTIAL: 'as if never started' is claimed as exact accounting and equal grants, not trace equality; atomic calls; the thread race 'drop a pending future while another thread releases' is not covered by the theorems.",
     },
     "C12": {
-        "text": "At every quiescent state of every history with a polled pending write() or a pending upgrade and no write/upgradable guard alive, the writer bit is set (theorem C12); in any state with the bit set try_read fails and polls of read() futures return Pending; nothing a reader does changes the bit - Lean theorems on the poll-granular RwLock model. " + _TIE + " The harness additionally probes try_read on the implementation at every such quiescent point." + _SEARCH,
+        "text": "At every quiescent state of every history with a polled pending write() or a pending upgrade and no write/upgradable guard alive, the writer bit is set (theorem C12); in any state with the bit set try_read fails and polls of read() futures return Pending; nothing a reader does changes the bit - Lean theorems on the poll-granular RwLock model. " + _TIE + " The harness additionally probes try_read on the implementation at every such quiescent point." + _ATLOG + _SEARCH,
         "note": "PARTIAL: atomic polls; the 'lasts until' clause is stated as: only a writer's release/downgrade or the cancellation of the waiting writer can clear the bit.",
     },
     "C14": {
-        "text": "Exact characterisations, at every reachable state of the three models, of when each try_* succeeds (try_lock: no guard and nobody starved; try_read: no write guard / waiting writer / pending upgrade; try_upgradable_read: slot free and nobody starved; try_write: that and no reader; try_upgrade: no other reader; try_acquire: a permit is available), that none of them registers a listener, and that all succeed when nothing is alive - Lean theorems (corollaries of the word invariants). " + _TIE + " try_* ops are part of the exhaustive alphabet, so they probe the implementation after every prefix.",
+        "text": "Exact characterisations, at every reachable state of the three models, of when each try_* succeeds (try_lock: no guard and nobody starved; try_read: no write guard / waiting writer / pending upgrade; try_upgradable_read: slot free and nobody starved; try_write: that and no reader; try_upgrade: no other reader; try_acquire: a permit is available), that none of them registers a listener, and that all succeed when nothing is alive - Lean theorems (corollaries of the word invariants). " + _TIE + " try_* ops are part of the exhaustive alphabet, so they probe the implementation after every prefix." + _ATLOG,
         "note": "PARTIAL: atomic calls; 'never succeeds in conflict' under interleavings not yet covered by a theorem.",
     },
     "C15": {
-        "text": "In the models the strong count is a counter updated exactly where the code clones, moves or drops the Arc; Lean theorems state that after every history (Mutex, Semaphore, RwLock; conversions, forget, cancellation at any point, handles cloned and dropped down to zero) it equals user handles + owned guards alive + owning futures (lock_arc until completion, UpgradeArc until completion or drop, acquire_arc until drop), hence never over-releases, and is zero exactly when none is left. " + _TIE + " Compared fields: outcome, Arc::strong_count, and the payload's drop counter (dropped exactly once)." + " Search aid: the harness replays last-owner histories and random ones under Miri (use-after-free, leaks).",
+        "text": "In the models the strong count is a counter updated exactly where the code clones, moves or drops the Arc; Lean theorems state that after every history (Mutex, Semaphore, RwLock; conversions, forget, cancellation at any point, handles cloned and dropped down to zero) it equals user handles + owned guards alive + owning futures (lock_arc until completion, UpgradeArc until completion or drop, acquire_arc until drop), hence never over-releases, and is zero exactly when none is left. " + _TIE + " Compared fields: outcome, Arc::strong_count, and the payload's drop counter (dropped exactly once)." + " Search aid: the harness replays last-owner histories and random ones under Miri (use-after-free, leaks)." + _ATLOG,
         "note": "Arc is modelled, not verified. A memory error that leaves the count unchanged (e.g. unlocking through a dangling reference after the Arc was freed) is outside the theorems; the Miri run searches for it.",
     },
     "C03": {
-        "text": "Conservation, no over-issue, exactness of try_acquire and the per-operation permit deltas are Lean theorems over every initial count and every finite operation sequence of the poll-granular Semaphore model (induction on the history). " + _TIE + " Compared fields: outcome and permit counter." + _ATOM + " Theorems: C03_interleaved_conservation / _no_overissue (racing try_acquire CAS loops incl. spurious weak-CAS failures, concurrent add_permits, drops, forgets)." + _SEARCH,
+        "text": "Conservation, no over-issue, exactness of try_acquire and the per-operation permit deltas are Lean theorems over every initial count and every finite operation sequence of the poll-granular Semaphore model (induction on the history). " + _TIE + " Compared fields: outcome and permit counter." + _ATOM + " Theorems: C03_interleaved_conservation / _no_overissue (racing try_acquire CAS loops incl. spurious weak-CAS failures, concurrent add_permits, drops, forgets)." + _ATLOG + _SEARCH,
         "note": "PARTIAL: usize wrap-around outside the models (Nat); the interleaving model covers the counter protocol, not the wake-up side.",
     },
     "C04": {
@@ -82,15 +87,15 @@ CLAIMS = {
         "note": "PARTIAL: atomic polls; blocking forms and thread interleavings not covered. event-listener is modelled (notify_additional(usize::MAX) as 'notify every listener').",
     },
     "C05": {
-        "text": "No-lost-wake-up for the Mutex is a Lean theorem (invariant MInv: word, registration, wake bookkeeping, baton; induction over every history: any number of futures, cancellation at any moment of a future's life, completed futures kept alive, spurious polls and new wakers, bargers, both outcomes of the starvation test) about a model that includes event-listener's list semantics; the most-recent-waker clause is a separate theorem. " + _TIE + " Compared fields: outcome, wakers called, state word, listener count, notified flag." + (_CALLS % "C05") + _SEARCH,
+        "text": "No-lost-wake-up for the Mutex is a Lean theorem (invariant MInv: word, registration, wake bookkeeping, baton; induction over every history: any number of futures, cancellation at any moment of a future's life, completed futures kept alive, spurious polls and new wakers, bargers, both outcomes of the starvation test) about a model that includes event-listener's list semantics; the most-recent-waker clause is a separate theorem. " + _TIE + " Compared fields: outcome, wakers called, state word, listener count, notified flag." + (_CALLS % "C05") + _ATLOG + _SEARCH,
         "note": "PARTIAL: polls are atomic in the model; thread interleavings and lock_blocking waiters are not covered by the theorem. event-listener is modelled, not verified (but executes in-process in every differential run).",
     },
     "C07": {
-        "text": "No-lost-wake-up for the Semaphore is a Lean theorem (invariant WInv + Own, induction over every history: any number of futures, cancellation at any point, completed futures kept alive, add_permits(n) for any n) about a model that includes event-listener's list semantics. " + _TIE + " Compared fields: outcome, wakers called, counter, listener count, notified flag." + (_CALLS % "C07") + _SEARCH,
+        "text": "No-lost-wake-up for the Semaphore is a Lean theorem (invariant WInv + Own, induction over every history: any number of futures, cancellation at any point, completed futures kept alive, add_permits(n) for any n) about a model that includes event-listener's list semantics. " + _TIE + " Compared fields: outcome, wakers called, counter, listener count, notified flag." + (_CALLS % "C07") + _ATLOG + _SEARCH,
         "note": "PARTIAL: polls are atomic in the model; event-listener is modelled, not verified (but executes in-process in every differential run).",
     },
     "C13": {
-        "text": "Part (a), barging disabled: while a lock operation is starved and live, try_lock/try_lock_arc return None and change nothing, and a new lock() future's first poll is Pending, locked or not - Lean theorems over every history (corollaries of the word invariant). Part (b), FIFO among later arrivals: theorem C13_fifo - if f is starved after ops0 and stays starved (neither completed nor dropped) through every prefix of ops1, then no lock operation alive at the end that started after f became starved (ids of dropped early arrivals may be reused, the theorem tracks that) has acquired the mutex. It rests on a queue-shape invariant proved for every reachable state (QI: only the head of lock_ops is ever notified; no entry carries the additional flag; while somebody is starved an outstanding notification implies the mutex is unlocked), from which a starved operation never re-queues, later arrivals stay behind it in the queue, and a notification never reaches them first. " + _TIE + " The 0.5 ms test is scripted through hook H1 so both outcomes occur at every evaluation point; the harness's FIFO monitor (grant order of starved operations) and try_lock probes run on the implementation." + _SEARCH,
+        "text": "Part (a), barging disabled: while a lock operation is starved and live, try_lock/try_lock_arc return None and change nothing, and a new lock() future's first poll is Pending, locked or not - Lean theorems over every history (corollaries of the word invariant). Part (b), FIFO among later arrivals: theorem C13_fifo - if f is starved after ops0 and stays starved (neither completed nor dropped) through every prefix of ops1, then no lock operation alive at the end that started after f became starved (ids of dropped early arrivals may be reused, the theorem tracks that) has acquired the mutex. It rests on a queue-shape invariant proved for every reachable state (QI: only the head of lock_ops is ever notified; no entry carries the additional flag; while somebody is starved an outstanding notification implies the mutex is unlocked), from which a starved operation never re-queues, later arrivals stay behind it in the queue, and a notification never reaches them first. " + _TIE + " The 0.5 ms test is scripted through hook H1 so both outcomes occur at every evaluation point; the harness's FIFO monitor (grant order of starved operations) and try_lock probes run on the implementation." + _ATLOG + _SEARCH,
         "note": "PARTIAL: atomic (serialised) polls, which is the property's own hypothesis for part (b); the try_lock clause under thread interleavings is covered by the word invariant of the atomic-granularity Mutex model (C01_interleaved: st >= 2 while somebody is starved, so CAS(0,1) fails), not restated here.",
     },
 }
